@@ -112,3 +112,130 @@ Example C13_nonvacuous :
     map fst outs = ref_answers ex_truth ex_runs ex_params /\
     map snd outs = [[2022]; [2022]].
 Proof. exact CacheProps.c13_example. Qed.
+
+(* ======================================================================
+   Failure paths (Model/RatesFail.v, Proofs/RatesFailProps.v): every cache
+   read, every cache write and every remote request of a run has a scripted
+   outcome ([fe_rd], [fe_wr], [fe_rq]: functions of the operation's number
+   within the run, so any script is an instance); a cache read may fail,
+   find nothing, or lose rows ([RdKeep mask]); cache files may lose rows
+   between runs ([fr_damage]). *)
+From ACB Require Import Model.CrashFs Model.RatesFail Proofs.CrashProps Proofs.RatesFailProps.
+
+(* The remote never fails, but EVERY cache read and write may fail in any
+   way, in every run: the history never fails, every answer still equals the
+   stateless no-cache reference, and no run requests a year twice ([fo_log]:
+   all requests of the run).  [CacheRows]: every cached year holds only rows
+   some earlier run wrote for it -- what [CacheOk] caches and caches that lost
+   rows satisfy (C13_cache_rows_states). *)
+Theorem C13_cache_failures_transparent :
+  forall (truth : calendar) runs params t0 a0 s0,
+    runsF_ok truth t0 a0 runs params ->
+    (forall r n, In r runs -> fe_rq (fr_env r) n = RqOk) ->
+    CacheRows truth t0 a0 (s_cache (f_s s0)) ->
+    exists s' outs,
+      historyF s0 runs = Ok (s', outs) /\
+      map (fun o => map fst (fo_answers o)) outs
+        = map (map (@lift_ans drate)) (ref_answers truth (plain_runs runs) params) /\
+      Forall (fun o => NoDup (map fst (fo_log o))) outs.
+Proof. exact RatesFailProps.cache_failures_transparent. Qed.
+Check C13_cache_failures_transparent :
+  forall (truth : calendar) runs params t0 a0 s0,
+    runsF_ok truth t0 a0 runs params ->
+    (forall r n, In r runs -> fe_rq (fr_env r) n = RqOk) ->
+    CacheRows truth t0 a0 (s_cache (f_s s0)) ->
+    exists s' outs,
+      historyF s0 runs = Ok (s', outs) /\
+      map (fun o => map fst (fo_answers o)) outs
+        = map (map (@lift_ans drate)) (ref_answers truth (plain_runs runs) params) /\
+      Forall (fun o => NoDup (map fst (fo_log o))) outs.
+Print Assumptions C13_cache_failures_transparent.
+
+(* legal starting caches: the empty cache, every [CacheOk] cache (what the
+   runs of C13_transparent_and_download_once leave), and any of those after
+   rows were lost *)
+Theorem C13_cache_rows_states : forall (truth : calendar) t a,
+  CacheRows truth t a [] /\
+  (forall c, CacheOk truth t a c -> CacheRows truth t a c) /\
+  (forall dm c, CacheRows truth t a c -> CacheRows truth t a (damage_cache dm c)).
+Proof.
+  intros truth t a. split; [intros y rates E; discriminate | ].
+  split; [exact (RatesFailProps.CacheOk_CacheRows truth t a) | ].
+  intros dm c. exact (RatesFailProps.CacheRows_damage truth t a dm c).
+Qed.
+Check C13_cache_rows_states : forall (truth : calendar) t a,
+  CacheRows truth t a [] /\
+  (forall c, CacheOk truth t a c -> CacheRows truth t a c) /\
+  (forall dm c, CacheRows truth t a c -> CacheRows truth t a (damage_cache dm c)).
+Print Assumptions C13_cache_rows_states.
+
+(* Malformed rows in a cache file.  The reader (get_rates_from_csv =
+   [parse_csv], Model/CrashFs.v) SKIPS a row it can not parse and keeps the
+   rest (a first line with another field count makes it skip every row of the
+   written shape: the year then reads as empty, it is not dropped).  For a
+   file in which any rows were replaced by lines the reader rejects
+   ([junk_line]: cut-off dates, missing or unparsable rates, extra fields,
+   blank lines, garbage) what is read is the written rows minus some: never a
+   row that was not written, never a changed rate -- with C14_read_back
+   ([parse_csv (render_rows rows) = map row_value rows]) as the undamaged
+   case.  Rows lost this way are exactly [RdKeep] / [fr_damage] of
+   C13_cache_failures_transparent: the missing dates are downloaded again.
+   (A damaged line that still parses as date,decimal -- `2022-01-06,1.` -- is
+   not malformed for the reader; that is the subject of C14.) *)
+Theorem C13_corrupt_cache_rows :
+  (forall l, Forall dmg_ok l ->
+     exists mask, parse_csv (render_damaged l) = keep_rows mask (map row_value (map fst l))) /\
+  (forall mask l x, In x (keep_rows mask l) -> In x l).
+Proof. split; [exact RatesFailProps.damaged_file_loses_rows_only | exact RatesFailProps.keep_rows_In]. Qed.
+Check C13_corrupt_cache_rows :
+  (forall l, Forall dmg_ok l ->
+     exists mask, parse_csv (render_damaged l) = keep_rows mask (map row_value (map fst l))) /\
+  (forall mask l x, In x (keep_rows mask l) -> In x l).
+Print Assumptions C13_corrupt_cache_rows.
+
+(* Non-vacuity: three runs over January 2022 -- in the first two every cache
+   read fails and the cache write fails (each downloads 2022 once, nothing is
+   cached), the third finds nothing / loses rows / fails on its reads and its
+   write works: all answers are the reference answers, one request per run;
+   and a damaged file (a row cut to `2022-01-06,`, a blank line, a comment)
+   reads as the two undamaged rows. *)
+Example C13_failures_nonvacuous :
+  (runsF_ok ex_truth 0 0 exF_runs exF_params /\
+   (forall r n, In r exF_runs -> fe_rq (fr_env r) n = RqOk) /\
+   CacheRows ex_truth 0 0 (s_cache (f_s (fstate_of empty_st))) /\
+   exists s outs,
+     historyF (fstate_of empty_st) exF_runs = Ok (s, outs) /\
+     map (fun o => map fst (fo_answers o)) outs
+       = map (map (@lift_ans drate)) (ref_answers ex_truth (plain_runs exF_runs) exF_params) /\
+     map fo_log outs = [[(2022, true)]; [(2022, true)]; [(2022, true)]] /\
+     map fo_nwr outs = [1%nat; 1%nat; 1%nat] /\
+     s_cache (f_s s) <> []) /\
+  (Forall dmg_ok ex_damaged /\
+   parse_csv (render_damaged ex_damaged) = [(18997, Qcfrac 12345 10000); (19001, Qcfrac 12377 10000)]).
+Proof. split; [exact RatesFailProps.cache_failures_example | exact RatesFailProps.damaged_example]. Qed.
+
+(* The failure-path machine generalises the machine of the theorems above:
+   with the environment in which no operation fails ([no_fail e]: every read
+   undisturbed, every write and request succeeding) and no damage,
+   [historyF] and [history true] have the same outcome, the same final loader
+   state and cache, and the same answers (errors embedded by [lift_ans]). *)
+Theorem C13_no_failure_is_plain_model : forall runs fs,
+  match history true (f_s fs) runs, historyF fs (map no_fail_run runs) with
+  | Ok (s, outs), Ok (fs', fouts) =>
+      f_s fs' = s /\
+      map (fun o => map fst (fo_answers o)) fouts = map (fun o => map (@lift_ans drate) (fst o)) outs
+  | Rej r, Rej r' => r = r'
+  | Panic p, Panic p' => p = p'
+  | _, _ => False
+  end.
+Proof. exact RatesFailProps.no_fail_history. Qed.
+Check C13_no_failure_is_plain_model : forall runs fs,
+  match history true (f_s fs) runs, historyF fs (map no_fail_run runs) with
+  | Ok (s, outs), Ok (fs', fouts) =>
+      f_s fs' = s /\
+      map (fun o => map fst (fo_answers o)) fouts = map (fun o => map (@lift_ans drate) (fst o)) outs
+  | Rej r, Rej r' => r = r'
+  | Panic p, Panic p' => p = p'
+  | _, _ => False
+  end.
+Print Assumptions C13_no_failure_is_plain_model.
